@@ -971,18 +971,23 @@ class BaseMatcher:
                         edge_m = Segment(nbr_label1, nbr_loc1, nbr_label2, nbr_loc2)
                         edge_o = Segment(f"O{obs_idx}", obs, f"O{obs_idx+1}", obs_next)
                         m_next = m.next(edge_m, edge_o, obs=obs_idx, obs_ne=nb_ne)
-                        if m_next is not None:
+                        if m_next is not None and m_next.stop:
+                            # Stopped matchings only exist when debugging. Keep them in the lattice for
+                            # inspection, they should not take part in the search.
+                            self.lattice[obs_idx].upsert(m_next)
+                            logger.debug(str(m_next))
+                        elif m_next is not None:
                             if m_next.key in cur_lattice_new:
                                 if m_next.shortkey in lattice_best:
                                     if approx_leq(m_next.dist_obs, lattice_best[m_next.shortkey].dist_obs):
-                                        cur_lattice_new[m_next.key].update(m_next)
+                                        self.lattice[obs_idx].upsert(m_next)
                                     else:
                                         m_next.stop = True
                                         if __debug__ and logger.isEnabledFor(logging.DEBUG):
                                             logger.debug(f"   | Stopped trace: distance larger than best for key {m_next.shortkey}: "
                                                          f"{m_next.dist_obs} > {lattice_best[m_next.shortkey].dist_obs}")
                                 else:
-                                    cur_lattice_new[m_next.key].update(m_next)
+                                    self.lattice[obs_idx].upsert(m_next)
                             else:
                                 if m_next.shortkey in lattice_best:
                                     # if m_next.logprob > lattice_best[m_next.shortkey].logprob:
@@ -1029,9 +1034,13 @@ class BaseMatcher:
                         edge_m = Segment(nbr_label, nbr_loc)
                         edge_o = Segment(f"O{obs_idx}", obs, f"O{obs_idx+1}", obs_next)
                         m_next = m.next(edge_m, edge_o, obs=obs_idx, obs_ne=nb_ne)
-                        if m_next is not None:
+                        if m_next is not None and m_next.stop:
+                            # Stopped matchings only exist when debugging (see above)
+                            self.lattice[obs_idx].upsert(m_next)
+                            logger.debug(str(m_next))
+                        elif m_next is not None:
                             if m_next.key in cur_lattice_new:
-                                cur_lattice_new[m_next.key].update(m_next)
+                                self.lattice[obs_idx].upsert(m_next)
                             else:
                                 if m_next.shortkey in lattice_best:
                                     # if m_next.logprob > lattice_best[m_next.shortkey].logprob:
@@ -1041,7 +1050,7 @@ class BaseMatcher:
                                         # lattice_toinsert.append(m_next)
                                     elif __debug__ and logger.isEnabledFor(logging.DEBUG):
                                         m_next.stop = True
-                                        cur_lattice_new[m_next.key] = m_next
+                                        self.lattice[obs_idx].upsert(m_next)
                                         # lattice_toinsert.append(m_next)
                                 else:
                                     cur_lattice_new[m_next.key] = m_next
@@ -1083,7 +1092,11 @@ class BaseMatcher:
                         edge_m = Segment(nbr_label1, nbr_loc1, nbr_label2, nbr_loc2)
                         edge_o = Segment(f"O{obs_idx+1}", obs_next)
                         m_next = m.next(edge_m, edge_o, obs=obs_idx)
-                        if m_next is not None:
+                        if m_next is not None and m_next.stop:
+                            # Stopped matchings only exist when debugging (see above)
+                            self.lattice[obs_idx].upsert(m_next)
+                            logger.debug(str(m_next))
+                        elif m_next is not None:
                             if m_next.shortkey in lattice_best:
                                 # if m_next.dist_obs < lattice_best[m_next.shortkey].dist_obs:
                                 if m_next.logprob > lattice_best[m_next.shortkey].logprob:
@@ -1127,7 +1140,11 @@ class BaseMatcher:
                         edge_m = Segment(nbr_label, nbr_loc)
                         edge_o = Segment(f"O{obs_idx+1}", obs_next)
                         m_next = m.next(edge_m, edge_o, obs=obs_idx)
-                        if m_next is not None:
+                        if m_next is not None and m_next.stop:
+                            # Stopped matchings only exist when debugging (see above)
+                            self.lattice[obs_idx].upsert(m_next)
+                            logger.debug(str(m_next))
+                        elif m_next is not None:
                             if m_next.shortkey in lattice_best:
                                 # if m_next.dist_obs < lattice_best[m_next.shortkey].dist_obs:
                                 if m_next.logprob > lattice_best[m_next.shortkey].logprob:
